@@ -410,8 +410,10 @@ pub fn gen_file(rng: &mut Rng, format: Format, protein: bool, n_records: usize) 
                 for i in 0..w {
                     let raw: Vec<f64> = (0..k - 1).map(|_| 0.01 + rng.f64()).collect();
                     let tot: f64 = raw.iter().sum();
+                    let shortest = (w + i) % 3 == 0;
                     for (j, x) in raw.iter().enumerate() {
-                        let s = format!("{:.6}", x / tot);
+                        // six decimals, or the shortest text that round-trips the f32 (8-9 digits)
+                        let s = if shortest { format!("{}", (x / tot) as f32) } else { format!("{:.6}", x / tot) };
                         freqs[i][j] = s.parse::<f32>().unwrap() as f64;
                         strs[i][j] = s;
                     }
@@ -553,7 +555,10 @@ pub fn diff_records(got: &[Rec], expect: &[Rec], float_cells: bool) -> Option<St
             }
             for j in 0..g.cells[i].len() {
                 let (a, b) = (g.cells[i][j], e.cells[i][j]);
-                let same = if float_cells { (a - b).abs() <= 1e-6 * (1.0 + b.abs()) } else { a == b };
+                // float cells: the model holds the nearest f32 of the decimal text, which is what a
+                // correctly rounding parser returns (exact comparison; NaN never occurs here)
+                let _ = float_cells;
+                let same = a == b;
                 if !same {
                     return Some(format!("record {} ({:?}): matrix entry (position {}, symbol column {}) = {}, written {}", n, e.id, i, j, a, b));
                 }
